@@ -1,14 +1,15 @@
 #!/bin/bash
 # adopt.sh <PROP> <tag> "<needs>"  : copy a sub-agent's result from /tmp/wt-PROP-tag into /verif/seeded/PROP-tag, verify, run target check
-P=$1; T=$2; NEEDS=$3; WT=/tmp/wt-$P-$T; D=/verif/seeded/$P-$T
+V=$(cd "$(dirname "$0")/.." && pwd)
+P=$1; T=$2; NEEDS=$3; WT=/tmp/wt-$P-$T; D=$V/seeded/$P-$T
 mkdir -p $D
 ( cd $WT && git diff -- src > $D/patch.diff )
 cp $WT/demo.py $D/demo.py
-python3 - "$P" "$T" "$NEEDS" <<'PY'
+python3 - "$P" "$T" "$NEEDS" "$D" <<'PY'
 import json,sys
-p,t,needs=sys.argv[1:4]
+p,t,needs,d=sys.argv[1:5]
 json.dump({"id":f"{p}-{t}","property":p,"needs":needs,"demo":"demo.py","origin":"fresh sub-agent given only the property text and a scratch worktree",
  "verified_with":"selftest/seeded.py verify (patch applies to /repo HEAD copy, pinned suite passes with it, demo exits !=0 with and 0 without the change)"},
- open(f"/verif/seeded/{p}-{t}/meta.json","w"), indent=1)
+ open(f"{d}/meta.json","w"), indent=1)
 PY
-cd /verif && /venv/bin/python selftest/seeded.py verify $P-$T 2>&1 | grep -v "WARNING conda" && /venv/bin/python selftest/seeded.py run $P-$T 2>&1 | grep -v "WARNING conda" | head -30
+cd $V && /venv/bin/python selftest/seeded.py verify $P-$T 2>&1 | grep -v "WARNING conda" && /venv/bin/python selftest/seeded.py run $P-$T 2>&1 | grep -v "WARNING conda" | head -30
